@@ -67,14 +67,7 @@ func vxNewPruner(retained uint64, l1Set bool, l1 uint64, hSet bool, h uint64) *P
 			_ = core.WriteChainHeight(d, h)
 		}
 	}
-	return &Pruner{
-		numRetainedBlocks: retained,
-		l2HeadsPerPrune:   1,
-		retentionFloor:    floor,
-		database:          d,
-		listener:          &SelectiveListener{},
-		logger:            log.NewNopZapLogger(),
-	}
+	return New(d, floor, retained, nil, nil, log.NewNopZapLogger(), WithL2HeadsPerPrune(1))
 }
 
 // C16-H1a: the L1-head trigger. Whenever a prune is issued the oldest block kept is at most
